@@ -107,6 +107,10 @@ inductive VSpec where
   | dynText (s : Str)          -- `View::from_dynamic(move || string)`
   | dynView (v : VList)        -- `View::from_dynamic(move || view)`: marker, content, marker
   | fragment (v : VList)
+  /-- two dynamic regions (A then B in the document) that are empty until a batch made while the view
+  is built sets their flags; `ab = true`: the flag of region A is written first, so the dependents of
+  B's flag (written LAST) re-run first when the batch ends and B's elements take their keys first -/
+  | batch2 (ab : Bool) (a b : VList)
 inductive VList where
   | nil
   | cons (v : VSpec) (rest : VList)
@@ -134,6 +138,16 @@ def build (s : Nat) : VSpec → Nat → SsrList × Nat
     let (cs, k') := buildList s v k
     (.cons .marker (.cons (.dynamic cs) (.cons .marker .nil)), k')
   | .fragment v, k => buildList s v k
+  | .batch2 true a b, k =>
+    -- `ab`: region B (flag written last) is built first, then region A; document order is A then B
+    let (cb, k1) := buildList s b k
+    let (ca, k2) := buildList s a k1
+    (.cons .marker (.cons (.dynamic ca) (.cons .marker (.cons .marker (.cons (.dynamic cb) (.cons .marker .nil))))), k2)
+  | .batch2 false a b, k =>
+    -- `ba`: region A is built first, then region B
+    let (ca, k1) := buildList s a k
+    let (cb, k2) := buildList s b k1
+    (.cons .marker (.cons (.dynamic ca) (.cons .marker (.cons .marker (.cons (.dynamic cb) (.cons .marker .nil))))), k2)
 def buildList (s : Nat) : VList → Nat → SsrList × Nat
   | .nil, k => (.nil, k)
   | .cons v rest, k =>
